@@ -564,7 +564,7 @@ def check_program(ck, model, root, pr, cfg, pm, pp, where, stats):
             if got != want:
                 first = next((i for i in range(min(len(got or []), len(want))) if got[i] != want[i]), None)
                 bad.append(("R3 JSON decoded by the Coq decoder differs from the map's associations", {"first_diff_line": first, "got": repr(got[first] if got and first is not None else got)[:300], "want": repr(want[first] if first is not None else None)[:300], "mappings_head": j["mappings"][:200]}, None))
-        if j.get("file") != cfg["teal_filename"] and not (cfg["teal_filename"] is None and "file" not in j):
+        if cfg["teal_filename"] is not None and j.get("file") != cfg["teal_filename"]:
             if where == "approval" or cfg["kind"] == "expr":
                 bad.append(("JSON 'file' differs from the requested teal_filename", {"file": j.get("file"), "asked": cfg["teal_filename"]}, None))
     # 6. annotated TEAL minus comments = plain TEAL (Coq tokeniser)
@@ -664,6 +664,9 @@ def run_and_check(ck, model, projects):
                 if cm["error"][0] != cp["error"][0]:
                     findings.append(("compilation fails differently with (%s) and without (%s) the source map" % (cm["error"][0], cp["error"][0]), {"map": cm["error"], "plain": cp["error"]}, None, root, pr, cfg))
                 stats["compile_errors_both_modes"] += 1
+                kinds = stats.setdefault("compile_error_kinds", {})
+                key = "%s: %s" % (cm["error"][0], cm["error"][1][:90].replace("\n", " "))
+                kinds[key] = kinds.get(key, 0) + 1
                 continue
             if "error" in cm:
                 kid = None
